@@ -116,7 +116,10 @@ def run(job):
             bdata = db
         else:
             bdata = damaged_variants(db, bakkind)
-        for i, (kind, off, mdata) in enumerate(variants):
+        # the five special variants (intact, missing, empty, zero-filled) are loaded in every way: directly through
+        # Persistence and through the start_persistence() of a threaded and of an asyncio gateway
+        runs = [(v, how) for v in variants[:5] for how in ("direct", "sync", "async")] + [(v, None) for v in variants[5:]]
+        for i, ((kind, off, mdata), forced_how) in enumerate(runs):
             for f in (path, bak):
                 if os.path.exists(f):
                     os.remove(f)
@@ -126,7 +129,7 @@ def run(job):
             if bdata is not None:
                 with open(bak, "wb") as fh:
                     fh.write(bdata)
-            how = "direct" if i % 40 else ["sync", "async"][(i // 40) % 2]
+            how = forced_how or ("direct" if i % 40 else ["sync", "async"][(i // 40) % 2])
             # the configured path may be spelled in any way that names the file: absolute, relative to the working
             # directory (the library's default file name is relative), or through a symlinked directory
             style = ("absolute", "relative", "symlinked-dir")[(i + job.get("seed", 0)) % 3]
